@@ -279,13 +279,20 @@ class C17(Prop):
                 settings = {"respect_gitignore": False, "files_max_size": 100, "force_exclude": False}
                 if r.random() < 0.3:
                     settings["extend_exclude"] = ["v2/"]
+                elif r.random() < 0.5:
+                    # a pattern of several segments: whatever it means for one traversal root, the result for overlapping
+                    # roots is the union and does not depend on which root is named first
+                    settings["extend_exclude"] = ["guide/drafts/"]
                 ign = r.choice([["/guide/drafts/"], ["guide/drafts/"], ["/api/drafts/next.md"], ["api/drafts/*.md"], ["/api/v2/", "/guide/drafts/old.md"], ["drafts/", "!/api/drafts/"]])
                 ignore_files = {root: ign}
                 with open(os.path.join(root, ".flowmarkignore"), "w") as f:
                     f.write("\n".join(ign) + "\n")
                 ref = Ref(root, settings, ignore_files)
                 shapes = r.choice([["guide/**/*.md", "api/**/*.md"], ["guide", "api"], ["guide/**/*.md", "api"], ["guide/*/*.md", "api/*/*.md", "*.md"],
-                                   ["api/**/*.md", "guide/**/*.md", "api/drafts/next.md"], ["guide/drafts", "api/drafts", "api"]])
+                                   ["api/**/*.md", "guide/**/*.md", "api/drafts/next.md"], ["guide/drafts", "api/drafts", "api"],
+                                   [".", "guide"], [".", "guide/drafts", "api"], ["guide", ".", "guide/drafts"]])
+                # the home directory of the user somewhere between a traversal root and the ignore file above it
+                case["_home"] = os.path.join(root, "guide")
                 args = list(shapes)
                 r.shuffle(args)
             else:
@@ -355,6 +362,9 @@ class C17(Prop):
             cfg = self.FRC(**settings)
             cwd = os.getcwd()
             os.chdir(root)
+            old_home = os.environ.get("HOME")
+            if case.get("_home"):
+                os.environ["HOME"] = case.pop("_home")
             try:
                 want = ref.resolve(args, root)
                 got = fm.call(lambda: self.FR(cfg).resolve(list(args)))
@@ -399,6 +409,8 @@ class C17(Prop):
                         break
             finally:
                 os.chdir(cwd)
+                if old_home is not None:
+                    os.environ["HOME"] = old_home
             for a in args:
                 col.hist("arg_kinds", "glob" if any(c in a for c in "*?[") else ("dir" if os.path.isdir(os.path.join(root, a)) else "file"))
             if case["seed"] % 5 == 0:
